@@ -289,7 +289,9 @@ def rule_deleg(ctx, rep):
                 rep.bad("R-DELEG", key, "%s::%s delegates to `%s` on the payload instead of `%s` (at %s)" % (tr.split("::")[-1], m, l["method"], m, l["loc"]), F.loc(b), tag)
                 continue
             rep.ok("R-DELEG", key, cfg=tag)
-            if hn and not (tr == "core::cmp::PartialEq" and hn in ("Arc", "ArcUnion")):  # ArcUnion: mixed variants are unequal without looking (C12 R-ARMS)
+            if (hn or (adt and adt["kind"] == "Struct")) and not (tr == "core::cmp::PartialEq" and hn in ("Arc", "ArcUnion")):  # ArcUnion: mixed variants are unequal without looking (C12 R-ARMS)
+                # (the header-slice payload structs too: `size_of_val(&a.slice) != size_of_val(&b.slice)` answering "unequal"
+                # before any field was asked is wrong for tails whose equality crosses sizes)
                 # on a handle the answer is the payload's on *every* path: no early return that skips the delegate (a
                 # "nothing to hash for zero-sized values" shortcut changes the hash of `""`, `[]`, ...). Arc's eq/ne carry the
                 # one licensed shortcut (R-LICENCE).
